@@ -2,7 +2,7 @@
    vm_compute for obligations on the tables regenerated from the live classes. *)
 From Coq Require Import String ZArith QArith Qround Qabs List Bool.
 From RV Require Import Base.PyNum Timing.Snapper Timing.Snap Timing.TimingMap Timing.Reseat Timing.Integrate
-  Formats.SMText Formats.SM Formats.SMSpec Generated.Tables Proofs.SMWitness Proofs.SMProofs.
+  Formats.SMText Formats.SM Formats.SMSpec Generated.Tables Proofs.SMWitness Proofs.SMProofs Proofs.SMWriteProofs.
 Import ListNotations.
 Open Scope Q_scope.
 
@@ -46,6 +46,17 @@ Theorem C03_place_position : forall (q : Q) (col ch : Z),
   p_measure p = Qfloor (q / 4).
 Proof. exact (fun q col ch => place_position live_conf q col ch C03_metronome_is_4). Qed.
 
+(* ---- the grid of one written measure: den_max rows, keys wide; each placed note's symbol at its (row, column) and '0'
+   in every other cell, provided no two notes share a cell (the domain's no-collision condition) ---- *)
+Theorem C03_written_measure_cells : forall (dm keys : Z) (g : list placed) (lines' : list (list Z)),
+  Forall (placed_ok dm keys) g -> NoDup (map (fun p => (prow dm p, pcol p)) g) ->
+  fill_lines (repeat (repeat 48%Z (Z.to_nat keys)) (Z.to_nat dm)) g dm keys = Some lines' ->
+  length lines' = Z.to_nat dm /\ rect (Z.to_nat keys) lines' /\
+  (forall p, In p g -> cell lines' (prow dm p) (pcol p) = Some (p_char p)) /\
+  (forall r c, (r < Z.to_nat dm)%nat -> (c < Z.to_nat keys)%nat ->
+               (forall p, In p g -> (r, c) <> (prow dm p, pcol p)) -> cell lines' r c = Some 48%Z).
+Proof. exact written_measure_cells. Qed.
+
 (* ---- header: an item "#TAG:value" is read back as (TAG, value) whatever the value contains after the first colon ---- *)
 Theorem C03_item_roundtrip : forall tag v : text, ~ In 58%Z tag ->
   parse_item ((35%Z :: tag) ++ 58%Z :: v) = Some (35%Z :: tag, v).
@@ -81,9 +92,10 @@ Proof. exact sm_write_padding_current. Qed.
 (* ---- sm_write_denotes, PARTIAL.  Full statement (not proved for all mapsets):
        forall s toks txt, set_wf s -> sm_write live_conf current s = Some toks -> renders toks txt ->
          exists d, sm_denote txt = Some d /\ write_spec tol (exact_regime s) s d = true.
-   Proved: every arithmetic step of it (LCM/cap, integral rows, truncation bound, place, item round trip, padding width);
-   missing: the induction over measures/rows tying fill_lines to denote_rows, and the step from the C10 theorems about
-   tm_beats to the per-object beats.  The full statement is evaluated in Coq on every generated mapset of every run
+   Proved: every arithmetic step (LCM/cap, integral rows, truncation bound, place), the content of a written measure cell
+   by cell (C03_written_measure_cells), item round trip, #SELECTABLE item, padding width for every key count.
+   Missing: the step from the grid of cells to denote_rows over the joined text, and the tm_snaps/tm_beats halves of C10
+   (Proofs/TimingProofs2.v, not available yet) giving the per-object beats.  The full statement is evaluated in Coq on every generated mapset of every run
    (Corr/RunC03.v: the implementation's text renders the model's tokens, and write_spec on sm_denote of that text). ---- *)
 Theorem C03_sm_write_denotes_partial : forall (dens : list Z) (num den : Z),
   Forall (fun y => 0 < y)%Z dens -> In den dens -> (den_max_of live_conf dens < k_max_snap live_conf)%Z ->
